@@ -30,6 +30,9 @@ var NumPool = [][]byte{
 	{0xff, 0xff, 0xff, 0xff, 0xff, 0xff, 0xff, 0xff, 0x00}, {0, 0, 0, 0, 0, 0, 0, 0, 0x81},
 	{0xab, 0xcd}, {0x12, 0x34, 0x56}, {0xaa, 0x55, 0xaa, 0x55, 0xaa},
 	// small values plus 2^32 / 2^64 (what narrowing to 32 or 64 bits turns back into 1, 2, 3, 8)
+	// the most negative values of the native integer widths (their negation, quotient by -1 and
+	// absolute value do not fit the width)
+	{0, 0, 0, 0, 0, 0, 0, 0x80, 0x80}, {0xff, 0xff, 0xff, 0xff, 0xff, 0xff, 0xff, 0xff}, {0, 0, 0, 0x80, 0x80},
 	{0x01, 0, 0, 0, 0x01}, {0x02, 0, 0, 0, 0x01}, {0x01, 0, 0, 0, 0, 0, 0, 0, 0x01}, {0x03, 0, 0, 0, 0, 0, 0, 0, 0x01}, {0x08, 0, 0, 0, 0, 0, 0, 0, 0x01}, {0x01, 0, 0, 0, 0, 0, 0, 0, 0x81},
 }
 
